@@ -116,6 +116,8 @@ func Load(repo string, bc BuildConfig) (*Ctx, error) {
 		}
 	}
 	computeImmutableFields(c)
+	curCtx = c
+	writesNothingCache = map[*types.Func]int{}
 	c.LoadDur = time.Since(t0)
 	return c, nil
 }
